@@ -85,6 +85,15 @@ def build_ops() -> Tuple[Dict[str, Callable[[], Any]], List[str], List[str], Lis
         z.writestr("index.xml", "<CATALOG><SHORT-NAME>tiny</SHORT-NAME></CATALOG>")
     import atexit
     atexit.register(lambda: tiny.exists() and tiny.unlink())
+    # one decode state that lives as long as the catalogue (created in strict mode), reused by every call of its operation
+    from odxtools.decodestate import DecodeState
+    text_dct = R.R3.parameters[1].dop.diag_coded_type
+    old_state = DecodeState(coded_message=b"\xff\xfe")
+
+    def dec_with_old_state() -> Any:
+        old_state.cursor_byte_position = 0
+        old_state.cursor_bit_position = 0
+        return text_dct.decode_from_pdu(old_state)
     lin = bv.diag_data_dictionary_spec.data_object_props["lin"].compu_method
     good_doc = og.container("DLC2", "DLC2", [_mini_layer(dangling=False)])
     bad_doc = og.container("DLC3", "DLC3", [_mini_layer(dangling=True)])
@@ -106,6 +115,7 @@ def build_ops() -> Tuple[Dict[str, Callable[[], Any]], List[str], List[str], Lis
         "enc_toolong": lambda: R.R2.encode(p=b"\x01\x02\x03"),
         "enc_short_bytes": lambda: R.R2.encode(p=b"\x01"),
         "dec_badutf8": lambda: R.R3.decode(b"\x22\xff\xfe"),
+        "dec_badutf8_old_state": dec_with_old_state,
         "enc_const": lambda: R.R1.encode(p=5, sid=0x23),
         "enc_txtlong": lambda: R.R3.encode(p="abcdef"),
         "enc_struct_unknown": lambda: R.R4.encode(p={"a": 1, "b": 2, "c": 3}),
